@@ -1,0 +1,11 @@
+//go:build verif
+
+// Verification hook for property C13 (add-only, compiled only with -tags verif).
+
+package tlcp
+
+import "sync/atomic"
+
+// VerifActiveCall returns the Close / Write interlock word: bit 0 = Close was called,
+// the remaining bits = 2 * (number of Write calls in flight).
+func (c *Conn) VerifActiveCall() int32 { return atomic.LoadInt32(&c.activeCall) }
